@@ -120,7 +120,7 @@ class Stubs:
     def __init__(self, c, with_alpha=True):
         self.c = c
         self.held = num_map(c, 'holdings', fields=REPORT, gen=lambda r: float(r.choice([-50, 10, 100, 250])), pgen=lambda r: r.random() < 0.5)
-        self.alpha = num_map(c, 'alpha', gen=lambda r: r.choice([0.0, 0.25, 0.5, 1.0, -0.5]), pgen=lambda r: r.random() < 0.5)
+        self.alpha = num_map(c, 'alpha', gen=lambda r: r.choice([0.0, 0.25, 0.5, 1.0, -0.5, 0.123456, 0.333333]), pgen=lambda r: r.random() < 0.5)
         self.uni = UniverseStub(c)
         self.sizer_calls, self.alpha_calls, self.broker_calls = [], [], []
         S = self
@@ -242,7 +242,7 @@ def pcm_call(c):
     c.ob('sizer-called-exactly-once', ok)
     if ok:
         sdt, sw = S.sizer_calls[0]
-        c.ob('sizer-called-at-dt-with-exactly-the-full-weights', AND(EQ(sdt, dt), IFF(HAS(sw, w), inset), IMPLIES(inset, EQ(VAL(sw, w), weight))), props=['C09', 'C07'])
+        c.ob('sizer-called-at-dt-with-exactly-the-full-weights', AND(EQ(sdt, dt), IFF(HAS(sw, w), inset), IMPLIES(inset, EQ(VAL(sw, w), weight))), props=['C09', 'C07', 'C08'])
     c.ob('universe-and-alpha-queried-at-dt-only', AND(*[EQ(q, dt) for q in S.uni.queries + S.alpha_calls]), props=['C07', 'C19'])
     # --- orders
     tgt = ITE(inset, S.target(dt, w, weight), 0.0) if c.mode == 'sym' else (S.target(dt, w, weight) if inset else 0)
